@@ -18,6 +18,11 @@
 #include <vata/serialization/timbuk_serializer.hh>
 #include <vata/util/binary_relation.hh>
 #include <vata/util/util.hh>
+#include <vata/sym_var_asgn.hh>
+#include "mtbdd/apply1func.hh"
+#include "mtbdd/apply2func.hh"
+#include "mtbdd/apply3func.hh"
+#include "mtbdd/ondriks_mtbdd.hh"
 
 #include <algorithm>
 #include <csignal>
@@ -724,6 +729,87 @@ static string opTaHist(const vector<string>& steps)
 	return out.str().substr(1);
 }
 
+
+// ---------------------------------------------------------------- MTBDD histories (C17, C18)
+using MT = MTBDDPkg::OndriksMTBDD<int>;
+static const size_t MT_NV = 4;       // variables used by generated cubes; values are read on all 2^MT_NQ assignments
+static const size_t MT_NQ = 6;       // (renaming / extension may shift variables upwards)
+
+static int mtOp1(int op, int x) { switch (op) { case 0: return x * x % 7; case 1: return 9 - x; case 2: return x % 2; default: return 3; } }
+static int mtOp2(int op, int x, int y) { switch (op) { case 0: return x + y; case 1: return x * y % 11; case 2: return std::max(x, y); case 3: return std::min(x, y); default: return x; } }
+static int mtOp3(int op, int x, int y, int z) { switch (op) { case 0: return (x % 2 == 0) ? y : z; case 1: return x + 2 * y + 3 * z; case 2: return std::max(x, std::min(y, z)); default: return y; } }
+
+GCC_DIAG_OFF(effc++)
+struct MtF1 : public MTBDDPkg::Apply1Functor<MtF1, int, int> { int op; explicit MtF1(int o) : op(o) {} int ApplyOperation(const int& x) { return mtOp1(op, x); } };
+struct MtF2 : public MTBDDPkg::Apply2Functor<MtF2, int, int, int> { int op; explicit MtF2(int o) : op(o) {} int ApplyOperation(const int& x, const int& y) { return mtOp2(op, x, y); } };
+struct MtF3 : public MTBDDPkg::Apply3Functor<MtF3, int, int, int, int> { int op; explicit MtF3(int o) : op(o) {} int ApplyOperation(const int& x, const int& y, const int& z) { return mtOp3(op, x, y, z); } };
+GCC_DIAG_ON(effc++)
+
+static string mtSizes()
+{
+#ifdef VATA_VERIF
+	return std::to_string(MT::VerifLeafCacheSize()) + "," + std::to_string(MT::VerifInternalCacheSize());
+#else
+	return "?,?";
+#endif
+}
+
+static string opMtHist(const vector<string>& steps)
+{
+	std::ostringstream out;
+	out << "base=" << mtSizes();
+	{
+		vector<std::unique_ptr<MT>> pool;
+		for (size_t k = 0; k < steps.size(); ++k) {
+			vector<string> f = split(steps[k], '!');
+			const string& op = f.at(0);
+			auto ix = [&](size_t i) -> size_t { size_t x = toN(f.at(i)); if (x >= pool.size() || !pool[x]) throw std::invalid_argument("dead entry"); return x; };
+			auto ent = [&](size_t i) -> MT& { return *pool[ix(i)]; };
+			if (op == "con") { pool.emplace_back(new MT(SymbolicVarAsgn(f.at(1)), static_cast<int>(toN(f.at(2))), static_cast<int>(toN(f.at(3))))); }
+			else if (op == "leaf") { pool.emplace_back(new MT(static_cast<int>(toN(f.at(1))))); }
+			else if (op == "copy") { pool.emplace_back(new MT(ent(1))); }
+			else if (op == "assign") { ent(1) = ent(2); }
+			else if (op == "selfassign") { MT& a = ent(1); a = *&a; }
+			else if (op == "kill") { pool[ix(1)].reset(); }
+			else if (op == "ap1") { MtF1 fn(static_cast<int>(toN(f.at(2)))); pool.emplace_back(new MT(fn(ent(1)))); }
+			else if (op == "ap2") { MtF2 fn(static_cast<int>(toN(f.at(3)))); pool.emplace_back(new MT(fn(ent(1), ent(2)))); }
+			else if (op == "ap2to") { MtF2 fn(static_cast<int>(toN(f.at(3)))); ent(1) = fn(ent(1), ent(2)); }
+			else if (op == "ap3") { MtF3 fn(static_cast<int>(toN(f.at(4)))); pool.emplace_back(new MT(fn(ent(1), ent(2), ent(3)))); }
+			else if (op == "proj") {
+				size_t mask = toN(f.at(2));
+				MtF2 fn(static_cast<int>(toN(f.at(3))));
+				pool.emplace_back(new MT(ent(1).Project([mask](size_t var) { return ((mask >> var) & 1) != 0; }, fn)));
+			}
+			else if (op == "ren") { size_t off = toN(f.at(2)); pool.emplace_back(new MT(ent(1).Rename([off](size_t var) { return var + off; }))); }
+			else if (op == "ext") { pool.emplace_back(new MT(ent(1).ExtendWith(SymbolicVarAsgn(f.at(2)), toN(f.at(3))))); }
+			else if (op == "pre") { pool.emplace_back(new MT(ent(1).GetMtbddForPrefix(SymbolicVarAsgn(f.at(2)), toN(f.at(3))))); }
+			else if (op == "paths") {
+				vector<string> ps;
+				for (auto& pr : ent(1).GetPaths()) ps.push_back(pr.first.ToString() + "=" + std::to_string(pr.second));
+				out << " paths" << k << "=" << joinSorted(ps, ";");
+			}
+			else if (op == "getv") { out << " getv" << k << "=" << ent(1).GetValue(SymbolicVarAsgn(f.at(2))); }
+			else throw std::invalid_argument("unknown step " + op);
+			out << " S" << k << " sz" << k << "=" << mtSizes();
+			// values of every live diagram on all total assignments; equality matrix
+			vector<size_t> live;
+			for (size_t i = 0; i < pool.size(); ++i) if (pool[i]) live.push_back(i);
+			for (size_t i : live) {
+				out << " " << k << "." << i << "=";
+				for (size_t a = 0; a < (static_cast<size_t>(1) << MT_NQ); ++a) {
+					if (a) out << ",";
+					out << pool[i]->GetValue(SymbolicVarAsgn(MT_NQ, a));
+				}
+			}
+			out << " eq" << k << "=";
+			for (size_t i : live) for (size_t j : live) out << ((*pool[i] == *pool[j]) ? '1' : '0');
+			if (live.empty()) out << "-";
+		}
+	}
+	out << " end=" << mtSizes();
+	return out.str();
+}
+
 // ---------------------------------------------------------------- LTS simulation engine
 // lts <n> <edges q,a,r;...|-> <partition b/b/... with b = q,q,... | -> <block relation i.j,... | -> <outputSize> <overload 0|1|2>
 static string opLts(const vector<string>& a)
@@ -783,6 +869,7 @@ static string runCase(const string& kind, const vector<string>& args)
 	if (kind == "nfah") return opNfaHist(args);
 	if (kind == "lts") return opLts(args);
 	if (kind == "tah") return opTaHist(args);
+	if (kind == "mth" || kind == "mthrc") return opMtHist(args);
 	return "BADKIND";
 }
 
